@@ -297,7 +297,7 @@ def resolve(path):
 
 
 ALLOWED_ROOTS = {'numpy', 'pandas', 'math', 'operator', 'itertools', 'functools', 'collections', 'datetime', 'statistics', 'bisect', 'builtins', 're',
-                 'geographiclib', 'copy'}
+                 'geographiclib', 'copy', 'unicodedata', 'string', 'textwrap', 'numbers', 'fractions', 'decimal'}
 
 
 def real_call(interp, fn_desc, target, args, kwargs, node):
